@@ -399,15 +399,36 @@ var cfgOnce = func() genCfg { c := cfgGeneral; c.pOnce = 55; c.pFail = 12; c.pLe
 
 func genHist(w *bufio.Writer, r *rng, id int) {
 	sc := genScenario(r, cfgOnce)
+	sc.Funcs[0].Once = r.chance(1, 4)
 	if err := sc.buildAll(); err != nil {
 		fmt.Fprintf(w, "scn hist %d builderr\nbuilderr %s\nend\n", id, strings.ReplaceAll(err.Error(), "\n", " "))
 		return
 	}
 	sc.header(w, "hist", id, "")
 	fmt.Fprintln(w, sc.dumpGraph(false))
+	// converters whose Go type is unique in the scenario can also be called directly
+	var direct []int
+	for _, f := range sc.Funcs[1:] {
+		uniq := true
+		for _, g := range sc.Funcs {
+			if g != f && g.rtype == f.rtype {
+				uniq = false
+			}
+		}
+		if uniq && len(f.Ins) > 0 {
+			direct = append(direct, f.ID)
+		}
+	}
+	var valueOpts []int
+	for i, o := range sc.Opts {
+		if i >= sc.Defaults && o.Kind != "conv" && o.Kind != "convfunc" {
+			valueOpts = append(valueOpts, i)
+		}
+	}
 	n := 2 + r.intn(5)
 	for k := 0; k < n; k++ {
-		if r.chance(1, 3) {
+		switch x := r.intn(12); {
+		case x < 3:
 			fmt.Fprintf(w, "run %d redefine\n", k)
 			w.Flush()
 			before := 0
@@ -423,12 +444,116 @@ func genHist(w *bufio.Writer, r *rng, id int) {
 				after += f.execs
 			}
 			fmt.Fprintf(w, "rdexecs %d\n", after-before)
-			continue
+		case x < 5 && len(direct) > 0:
+			fid := direct[r.intn(len(direct))]
+			fmt.Fprintf(w, "run %d direct\nhop target=%d omit=\n", k, fid)
+			w.Flush()
+			for _, l := range sc.callWith(fid, nil) {
+				fmt.Fprintln(w, l)
+			}
+		case x < 8 && len(valueOpts) > 0:
+			i := valueOpts[r.intn(len(valueOpts))]
+			fmt.Fprintf(w, "run %d call\nhop target=0 omit=%d\n", k, i)
+			w.Flush()
+			for _, l := range sc.callWith(0, map[int]bool{i: true}) {
+				fmt.Fprintln(w, l)
+			}
+		default:
+			fmt.Fprintf(w, "run %d call\nhop target=0 omit=\n", k)
+			w.Flush()
+			for _, l := range sc.callOnce() {
+				fmt.Fprintln(w, l)
+			}
 		}
-		fmt.Fprintf(w, "run %d call\n", k)
-		w.Flush()
-		for _, l := range sc.callOnce() {
-			fmt.Fprintln(w, l)
+	}
+	fmt.Fprintf(w, "end\n")
+}
+
+// ---------------------------------------------------------------- C10: targets outside the scenario type universe
+
+func localTypeA() reflect.Type { type T struct{ ID int }; return reflect.TypeOf(T{}) }
+func localTypeB() reflect.Type { type T struct{ ID int }; return reflect.TypeOf(T{}) }
+
+type markerTarget struct {
+	am.Struct
+	A K0
+}
+
+// genConvSeq: sequences of Convert on targets that print alike, and Convert to a marker struct;
+// each Convert is compared with Call on an identity function of the same type.
+func genConvSeq(w *bufio.Writer, r *rng, id int) {
+	fmt.Fprintf(w, "scn convseq %d\n", id)
+	mk := func(t reflect.Type, vid int) reflect.Value {
+		v := reflect.New(t).Elem()
+		v.Field(0).SetInt(int64(vid))
+		return v
+	}
+	one := func(name string, t reflect.Type, args func() []am.Arg, idOf func(reflect.Value) int) {
+		cv, cerr := "", ""
+		func() {
+			defer func() {
+				if p := recover(); p != nil {
+					cerr = "panic"
+				}
+			}()
+			out, err := am.Convert(t, args()...)
+			if err != nil {
+				cerr = "err"
+				return
+			}
+			ov := reflect.ValueOf(out)
+			cv = fmt.Sprintf("ok:%d:%v", idOf(ov), ov.IsValid() && ov.Type() == t)
+		}()
+		if cerr != "" {
+			cv = cerr
+		}
+		call := ""
+		func() {
+			defer func() {
+				if p := recover(); p != nil {
+					call = "panic"
+				}
+			}()
+			ft := reflect.FuncOf([]reflect.Type{t}, []reflect.Type{t}, false)
+			f, err := am.NewFunc(reflect.MakeFunc(ft, func(a []reflect.Value) []reflect.Value { return a }).Interface())
+			if err != nil {
+				call = "err"
+				return
+			}
+			res := f.Call(args()...)
+			if res.Err() != nil || res.Len() != 1 {
+				call = "err"
+				return
+			}
+			ov := reflect.ValueOf(res.Out(0))
+			call = fmt.Sprintf("ok:%d:%v", idOf(ov), ov.IsValid() && ov.Type() == t)
+		}()
+		fmt.Fprintf(w, "cs %s convert=%s call=%s\n", name, cv, call)
+	}
+	plainID := func(v reflect.Value) int { return vidOf(v) }
+	ta, tb := localTypeA(), localTypeB()
+	steps := []int{0, 1, 2}
+	if r.chance(1, 2) {
+		steps = []int{1, 0, 2}
+	}
+	if r.chance(1, 3) {
+		steps = append(steps, 0, 1)
+	}
+	for k, s := range steps {
+		vid := 10*(k+1) + r.intn(9)
+		switch s {
+		case 0:
+			one("localA", ta, func() []am.Arg { return []am.Arg{am.Typed(mk(ta, vid).Interface())} }, plainID)
+		case 1:
+			one("localB", tb, func() []am.Arg { return []am.Arg{am.Typed(mk(tb, vid).Interface())} }, plainID)
+		case 2:
+			mt := reflect.TypeOf(markerTarget{})
+			one("marker", mt, func() []am.Arg { return []am.Arg{am.Named("a", K0{ID: vid})} }, func(v reflect.Value) int {
+				if v.IsValid() && v.Kind() == reflect.Struct && v.NumField() == 2 {
+					return int(v.Field(1).Field(0).Int())
+				}
+				return -1
+			})
 		}
 	}
 	fmt.Fprintf(w, "end\n")
